@@ -1,6 +1,7 @@
 package props
 
 import (
+	"bytes"
 	"encoding/binary"
 	"fmt"
 	"reflect"
@@ -42,23 +43,33 @@ type parsers struct {
 
 func containerParsers() []parsers {
 	return []parsers{
+		// after reading the result the caller uses the container it was given (adds a parameter of its own):
+		// that is the caller's business and must never show up in what a later parse reports
 		{"smpp.ReadTLVs", func(b []byte) ([]pdus.TLV, error) {
 			m, err := smpp.ReadTLVs(packet.NewPacketReader(b))
-			return pdus.ExtractTLVs(reflect.ValueOf(m)), err
+			out := pdus.ExtractTLVs(reflect.ValueOf(m))
+			m.SetTLV(smpp.NewTLV(0xFFFE, []byte("caller's own")))
+			return out, err
 		}},
 		{"smpp.ReadTLVs1", func(b []byte) ([]pdus.TLV, error) {
 			r := packet.NewPacketReader(b)
 			m := smpp.ReadTLVs1(r)
-			return pdus.ExtractTLVs(reflect.ValueOf(m)), r.Error()
+			out := pdus.ExtractTLVs(reflect.ValueOf(m))
+			m.SetTLV(smpp.NewTLV(0xFFFE, []byte("caller's own")))
+			return out, r.Error()
 		}},
 		{"smgp.ParseOptions", func(b []byte) ([]pdus.TLV, error) {
 			m, err := smgp.ParseOptions(b)
-			return pdus.ExtractTLVs(reflect.ValueOf(m)), err
+			out := pdus.ExtractTLVs(reflect.ValueOf(m))
+			m.Add(smgp.NewOption(smgp.Tag(0xFFFE), []byte("caller's own")))
+			return out, err
 		}},
 		{"smgp.ReadOptions", func(b []byte) ([]pdus.TLV, error) {
 			r := packet.NewPacketReader(b)
 			m := smgp.ReadOptions(r)
-			return pdus.ExtractTLVs(reflect.ValueOf(m)), r.Error()
+			out := pdus.ExtractTLVs(reflect.ValueOf(m))
+			m.Add(smgp.NewOption(smgp.Tag(0xFFFE), []byte("caller's own")))
+			return out, r.Error()
 		}},
 	}
 }
@@ -148,7 +159,17 @@ func init() {
 						c.Failf("serialize-"+fw.PanicSig(val, st), "set %s: %v\n%s", trunc200(want), val, st)
 						return
 					}
+					// what earlier calls returned stays what it was
+					for _, h := range heldSerial {
+						if !bytes.Equal(h.live, h.snap) {
+							c.Failf("serialized-bytes-changed-later/"+h.name, "bytes returned by %s in the previous case now read %s, were %s", h.name, hx(h.live), hx(h.snap))
+						}
+					}
+					heldSerial = heldSerial[:0]
 					for name, b := range map[string][]byte{"smpp.TLVs.Bytes": b1, "smgp.Options.Serialize": b2} {
+						if len(b) > 0 && len(b) < 4096 {
+							heldSerial = append(heldSerial, heldPacket{name, b, append([]byte(nil), b...)})
+						}
 						w, clean := strictWalk(b)
 						if !clean || pdus.CanonTLV(w) != want {
 							c.Failf("serialize-lossy/"+name, "%s of the set %s gives %s (strict parse clean=%v): %s", name, trunc200(want), trunc200(pdus.CanonTLV(w)), clean, hx(b))
@@ -351,6 +372,9 @@ func init() {
 		},
 	})
 }
+
+// heldSerial: serialised containers of the previous case (one goroutine per worker process).
+var heldSerial []heldPacket
 
 func hasDup(l []pdus.TLV) bool {
 	seen := map[uint16]bool{}
